@@ -14,12 +14,12 @@ theorem leafOf_err {g d : Bytes} {e : PyErr} (h : leafOf g d = .error e) : e = .
   all_goals rfl
 
 theorem extLoop_err (data : Bytes) (ds : Nat) (fuel datapos : Nat) {e : PyErr} (h : extLoop data ds fuel datapos = .error e) :
-    e = .mutagen ∨ e = .notImplemented ∨ e = .diverge := by
+    e = .mutagen ∨ e = .diverge := by
   induction fuel generalizing datapos with
   | zero =>
     unfold extLoop at h
     split at h <;> cases h
-    exact Or.inr (Or.inr rfl)
+    exact Or.inr rfl
   | succ fuel ih =>
     unfold extLoop at h
     split at h
@@ -29,7 +29,7 @@ theorem extLoop_err (data : Bytes) (ds : Nat) (fuel datapos : Nat) {e : PyErr} (
       · split at h
         · cases h; exact Or.inl rfl
         · split at h
-          · cases h; exact Or.inr (Or.inl rfl)
+          · cases h; exact Or.inl rfl
           · split at h
             · rename_i e' he
               cases h
@@ -41,17 +41,15 @@ theorem extLoop_err (data : Bytes) (ds : Nat) (fuel datapos : Nat) {e : PyErr} (
               · cases h
     · cases h
 
-/-- HeaderExtensionObject.parse: a MutagenError, or the model's "outside" for a Header Extension
-Object inside a Header Extension Object -/
-theorem parseExt_err {data : Bytes} {e : PyErr} (h : parseExt data = .error e) : e = .mutagen ∨ e = .notImplemented := by
+/-- HeaderExtensionObject.parse: nothing but a MutagenError -/
+theorem parseExt_err {data : Bytes} {e : PyErr} (h : parseExt data = .error e) : e = .mutagen := by
   have hnd := parseExt_no_diverge data
   unfold parseExt at h
   simp only [] at h
   split at h
-  · cases h; exact Or.inl rfl
-  · rcases extLoop_err _ _ _ _ h with h1 | h1 | h1
-    · exact Or.inl h1
-    · exact Or.inr h1
+  · cases h; rfl
+  · rcases extLoop_err _ _ _ _ h with h1 | h1
+    · exact h1
     · subst h1
       exfalso; apply hnd
       unfold parseExt
@@ -59,18 +57,17 @@ theorem parseExt_err {data : Bytes} {e : PyErr} (h : parseExt data = .error e) :
       rename_i hc
       rw [if_neg hc]; exact h
 
-theorem objOf_err {g d : Bytes} {e : PyErr} (h : objOf g d = .error e) : e = .mutagen ∨ e = .notImplemented := by
+theorem objOf_err {g d : Bytes} {e : PyErr} (h : objOf g d = .error e) : e = .mutagen := by
   unfold objOf at h
   split at h
   · split at h
     · rename_i e' he; cases h; exact parseExt_err he
     · cases h
   · split at h
-    · rename_i e' he; cases h; exact Or.inl (leafOf_err he)
+    · rename_i e' he; cases h; exact leafOf_err he
     · cases h
 
-theorem parseObjects_err (f : Bytes) (n pos rem : Nat) {e : PyErr} (h : parseObjects f n pos rem = .error e) :
-    e = .mutagen ∨ e = .notImplemented := by
+theorem parseObjects_err (f : Bytes) (n pos rem : Nat) {e : PyErr} (h : parseObjects f n pos rem = .error e) : e = .mutagen := by
   induction n generalizing pos rem with
   | zero => cases h
   | succ n ih =>
@@ -78,7 +75,7 @@ theorem parseObjects_err (f : Bytes) (n pos rem : Nat) {e : PyErr} (h : parseObj
     simp only [] at h
     repeat' split at h
     all_goals first
-      | (cases h; exact Or.inl rfl)
+      | (cases h; rfl)
       | (rename_i e' he; cases h; first | exact objOf_err he | exact ih _ _ he)
       | cases h
 
@@ -88,12 +85,11 @@ theorem parseSize_err {f : Bytes} {e : PyErr} (h : parseSize f = .error e) : e =
   split at h <;> cases h
   rfl
 
-/-- `ASF(file)` on any byte string: a tree, a MutagenError, or — only when a Header Extension Object
-sits inside a Header Extension Object — the model's "outside the model" -/
-theorem parseFull_err {f : Bytes} {e : PyErr} (h : parseFull f = .error e) : e = .mutagen ∨ e = .notImplemented := by
+/-- `ASF(file)` on any byte string: a tree or a MutagenError -/
+theorem parseFull_err {f : Bytes} {e : PyErr} (h : parseFull f = .error e) : e = .mutagen := by
   unfold parseFull at h
   split at h
-  · rename_i e' he; cases h; exact Or.inl (parseSize_err he)
+  · rename_i e' he; cases h; exact parseSize_err he
   · exact parseObjects_err _ _ _ _ h
 
 /-! ### saving: which classes at all -/
@@ -274,13 +270,20 @@ theorem distribute_ok {tags : List Tag} {d : Dist} (h : distribute tags = .ok d)
 theorem distribute_err {tags : List Tag} {e : PyErr} (h : distribute tags = .error e) : e = .unicode := by
   unfold distribute at h; split at h <;> cases h; rfl
 
-/-- `ASF.save` through a loaded object, any tree, any file, any tags, any padding answer: a MutagenError,
-UnicodeEncodeError or struct.error — nothing else -/
+theorem structToMutagen_cases {e : PyErr} (h : e = .mutagen ∨ e = .unicode ∨ e = .struct_) :
+    structToMutagen e = .mutagen ∨ structToMutagen e = .unicode := by
+  rcases h with rfl | rfl | rfl
+  · exact Or.inl rfl
+  · exact Or.inr rfl
+  · exact Or.inl rfl
+
+/-- `ASF.save` through a loaded object, any tree, any file, any tags, any padding answer: a MutagenError
+(struct.error from rendering is turned into one) or UnicodeEncodeError — nothing else -/
 theorem saveTree_err {objs : List Obj} {f : Bytes} {tags : List Tag} {pad : PadChoice} {e : PyErr}
-    (h : saveTree objs f tags pad = .error e) : e = .mutagen ∨ e = .unicode ∨ e = .struct_ := by
+    (h : saveTree objs f tags pad = .error e) : e = .mutagen ∨ e = .unicode := by
   unfold saveTree at h
   split at h
-  · rename_i e' he; cases h; exact Or.inr (Or.inl (distribute_err he))
+  · rename_i e' he; cases h; exact Or.inr (distribute_err he)
   · rename_i d hd
     simp only [] at h
     split at h
@@ -289,7 +292,7 @@ theorem saveTree_err {objs : List Obj} {f : Bytes} {tags : List Tag} {pad : PadC
       · rename_i e' he; cases h
         have := distribute_ok hd
         subst this
-        exact renderFull_err (distPure_cd_text tags) he
+        exact structToMutagen_cases (renderFull_err (distPure_cd_text tags) he)
       · cases h
 
 /-! ### tags whose strings can be encoded: no UnicodeEncodeError -/
@@ -454,16 +457,17 @@ theorem distribute_of_enc (tags : List Tag) (h : ∀ t ∈ tags, t.Enc) : distri
   rw [if_pos]
   exact List.all_eq_true.mpr (fun t ht => (h t ht).2)
 
-/-- with encodable tags: a MutagenError or struct.error -/
+/-- with encodable tags: a MutagenError -/
 theorem saveTree_err_enc {objs : List Obj} {f : Bytes} {tags : List Tag} (ht : ∀ t ∈ tags, t.Enc) {pad : PadChoice} {e : PyErr}
-    (h : saveTree objs f tags pad = .error e) : e = .mutagen ∨ e = .struct_ := by
+    (h : saveTree objs f tags pad = .error e) : e = .mutagen := by
   unfold saveTree at h
   rw [distribute_of_enc tags ht] at h
   simp only [] at h
   split at h
-  · rename_i e' he; cases h; exact Or.inl (parseSize_err he)
+  · rename_i e' he; cases h; exact parseSize_err he
   · split at h
-    · rename_i e' he; cases h; exact renderFull_err_enc (distPure_enc tags ht) he
+    · rename_i e' he; cases h
+      rcases renderFull_err_enc (distPure_enc tags ht) he with rfl | rfl <;> rfl
     · cases h
 
 /-! ### the tags a file loads with are encodable -/
@@ -969,79 +973,34 @@ theorem saveTree_err_fits {objs : List Obj} {f : Bytes} {tags : List Tag} {pad :
   · rename_i e' he; cases h; exact parseSize_err he
   · rename_i oldSize cnt hps
     split at h
-    · rename_i e' he; cases h; exact renderFull_err_fits hP (hf oldSize cnt P hps hP) he
+    · rename_i e' he; cases h; rw [renderFull_err_fits hP (hf oldSize cnt P hps hP) he]; rfl
     · cases h
 
-/-- the model's "outside" answer comes from loading only -/
-def NestedExt (f : Bytes) : Prop := parseFull f = .error .notImplemented
-
-instance (f : Bytes) : Decidable (NestedExt f) := by unfold NestedExt; infer_instance
-
-theorem parseFull_err' {f : Bytes} {e : PyErr} (h : parseFull f = .error e) : e = .mutagen ∨ (e = .notImplemented ∧ NestedExt f) := by
-  rcases parseFull_err h with h1 | h1
-  · exact Or.inl h1
-  · subst h1; exact Or.inr ⟨rfl, h⟩
-
 theorem save_err_classes {f : Bytes} {tags : List Tag} {pad : PadChoice} {e : PyErr} (h : save f tags pad = .error e) :
-    e = .mutagen ∨ (e = .notImplemented ∧ NestedExt f) ∨ e = .unicode ∨ e = .struct_ := by
+    e = .mutagen ∨ e = .unicode := by
   unfold save at h
   split at h
-  · rename_i e' he; cases h
-    rcases parseFull_err' he with h1 | h1
-    · exact Or.inl h1
-    · exact Or.inr (Or.inl h1)
+  · rename_i e' he; cases h; exact Or.inl (parseFull_err he)
   · split at h
-    · rename_i e' he; cases h
-      rcases saveTree_err he with h1 | h1 | h1
-      · exact Or.inl h1
-      · exact Or.inr (Or.inr (Or.inl h1))
-      · exact Or.inr (Or.inr (Or.inr h1))
+    · rename_i e' he; cases h; exact saveTree_err he
     · cases h
 
 theorem save_err_enc {f : Bytes} {tags : List Tag} (ht : ∀ t ∈ tags, t.Enc) {pad : PadChoice} {e : PyErr} (h : save f tags pad = .error e) :
-    e = .mutagen ∨ (e = .notImplemented ∧ NestedExt f) ∨ e = .struct_ := by
+    e = .mutagen := by
   unfold save at h
   split at h
-  · rename_i e' he; cases h
-    rcases parseFull_err' he with h1 | h1
-    · exact Or.inl h1
-    · exact Or.inr (Or.inl h1)
+  · rename_i e' he; cases h; exact parseFull_err he
   · split at h
-    · rename_i e' he; cases h
-      rcases saveTree_err_enc ht he with h1 | h1
-      · exact Or.inl h1
-      · exact Or.inr (Or.inr h1)
+    · rename_i e' he; cases h; exact saveTree_err_enc ht he
     · cases h
 
-theorem save_err_fits {f : Bytes} {tags : List Tag} {pad : PadChoice} (hr : Renderable tags) (hf : SaveFits f tags pad) {e : PyErr}
-    (h : save f tags pad = .error e) : e = .mutagen ∨ (e = .notImplemented ∧ NestedExt f) := by
-  unfold save at h
-  split at h
-  · rename_i e' he; cases h; exact parseFull_err' he
-  · rename_i objs hobjs
-    split at h
-    · rename_i e' he; cases h
-      refine Or.inl (saveTree_err_fits hr ?_ he)
-      intro oldSize cnt P hps hP
-      unfold SaveFits at hf
-      rw [hobjs, hps, payloadsOf_renders hP] at hf
-      exact hf
-    · cases h
-
-theorem resave_err_classes {f : Bytes} {pad : PadChoice} {e : PyErr} (h : resave f pad = .error e) :
-    e = .mutagen ∨ (e = .notImplemented ∧ NestedExt f) ∨ e = .struct_ := by
+theorem resave_err {f : Bytes} {pad : PadChoice} {e : PyErr} (h : resave f pad = .error e) : e = .mutagen := by
   unfold resave at h
   split at h
-  · rename_i e' he; cases h
-    rcases parseFull_err' he with h1 | h1
-    · exact Or.inl h1
-    · exact Or.inr (Or.inl h1)
+  · rename_i e' he; cases h; exact parseFull_err he
   · rename_i objs _
     split at h
-    · rename_i e' he; cases h
-      rcases saveTree_err_enc (loadedTags_enc objs) he with h1 | h1
-      · exact Or.inl h1
-      · exact Or.inr (Or.inr h1)
+    · rename_i e' he; cases h; exact saveTree_err_enc (loadedTags_enc objs) he
     · cases h
 
 theorem resave_eq_save {f : Bytes} {pad : PadChoice} {objs : List Obj} (h : parseFull f = .ok objs) :
@@ -1050,15 +1009,10 @@ theorem resave_eq_save {f : Bytes} {pad : PadChoice} {objs : List Obj} (h : pars
 
 theorem renderable_nil : Renderable [] := ⟨(fun t ht => by cases ht), (by decide)⟩
 
-theorem delete_err_classes {f : Bytes} {e : PyErr} (h : delete f = .error e) :
-    e = .mutagen ∨ (e = .notImplemented ∧ NestedExt f) ∨ e = .struct_ :=
+theorem delete_err {f : Bytes} {e : PyErr} (h : delete f = .error e) : e = .mutagen :=
   save_err_enc (fun t ht => by cases ht) h
 
-theorem delete_err_fits {f : Bytes} (hf : SaveFits f [] padZero) {e : PyErr} (h : delete f = .error e) :
-    e = .mutagen ∨ (e = .notImplemented ∧ NestedExt f) :=
-  save_err_fits renderable_nil hf h
-
-/-! ### a file that loads but whose unchanged save raises struct.error -/
+/-! ### a file that loads but whose unchanged save fails: a name too long once its terminator is added -/
 
 theorem replicate_scalar (n : Nat) : (List.replicate n 97).all isScalar = true := by
   apply List.all_eq_true.mpr
@@ -1178,10 +1132,10 @@ theorem kept_layoutOf : (addMissing ((layoutOf nm).top.map Item.toObj)).filter (
   rfl
 
 include hcd in
-/-- the file loads; saving what was loaded — with any padding choice — ends in struct.error: the
+/-- the file loads; saving what was loaded — with any padding choice — ends in ASFError (struct.error before f0601fa): the
 name is written back with a terminator, which makes 65536 bytes, one more than the 16-bit name
 length field holds -/
-theorem resave_layoutOf (pad : PadChoice) : resave (layoutOf nm).render pad = .error .struct_ := by
+theorem resave_layoutOf (pad : PadChoice) : resave (layoutOf nm).render pad = .error .mutagen := by
   have hok := layoutOf_OK nm hs hz hl
   have hp := parseFull_layout (layoutOf nm) hok
   have hsz := (layoutOf nm).parseSize_render hok
@@ -1191,8 +1145,12 @@ theorem resave_layoutOf (pad : PadChoice) : resave (layoutOf nm).render pad = .e
   unfold saveTree
   rw [distribute_tLongOf nm hcd, hsz]
   simp only []
-  unfold renderFull
-  simp only [kept_layoutOf, concatMapE, renderObj, renderLeaf, listPayload, recECD_tLongOf nm hs hl]
+  have hr : renderFull ⟨[], [tLongOf nm], [], []⟩ (addMissing ((layoutOf nm).top.map Item.toObj)) (layoutOf nm).render.length
+      (layoutOf nm).headerLen pad = .error .struct_ := by
+    unfold renderFull
+    simp only [kept_layoutOf, concatMapE, renderObj, renderLeaf, listPayload, recECD_tLongOf nm hs hl]
+  rw [hr]
+  rfl
 
 end
 
@@ -1203,7 +1161,7 @@ def longName : List Nat := List.replicate 32767 97
 with one descriptor: name length 65534, the name (32767 × "a", no terminator), type DWORD, length 4, value 1 -/
 def wLongName : Bytes := (layoutOf longName).render
 
-theorem resave_wLongName (pad : PadChoice) : resave wLongName pad = .error .struct_ :=
+theorem resave_wLongName (pad : PadChoice) : resave wLongName pad = .error .mutagen :=
   resave_layoutOf longName (replicate_scalar 32767) (fun c hc => by rw [List.eq_of_mem_replicate hc]; decide)
     (enc_replicate_length 32767) (by decide +kernel) pad
 
